@@ -6,6 +6,8 @@ package main
 import (
 	"fmt"
 	"go/ast"
+	"go/constant"
+	"go/token"
 	"go/types"
 	"sort"
 	"strings"
@@ -19,7 +21,13 @@ func kindClauses(info *types.Info, fd *ast.FuncDecl) (sw *ast.SwitchStmt, clause
 		if !ok || s.Tag == nil || sw != nil {
 			return true
 		}
-		if _, mname, _, ok := methodCall(ast.Unparen(s.Tag)); ok && mname == "Kind" {
+		tag := ast.Unparen(s.Tag)
+		if id, isID := tag.(*ast.Ident); isID {
+			if init := initOfIn(info, fd.Body, id); init != nil {
+				tag = ast.Unparen(init)
+			}
+		}
+		if _, mname, _, ok := methodCall(tag); ok && mname == "Kind" {
 			sw = s
 		}
 		return true
@@ -84,7 +92,7 @@ func checkDispatch(c *Ctx, r *Rec, cr *collRoles) {
 	rankD := findDispatcher(c, cr, true)
 	cmpD := findDispatcher(c, cr, false)
 	if rankD == nil || cmpD == nil {
-		r.undecided("D4-dispatch-agreement", "agent."+cr.n.Obj().Name(), "", "cannot bind the rank and compare dispatchers (private methods on two reflect.Values switching on Kind)")
+		r.skip("D4-dispatch-agreement", "agent."+cr.n.Obj().Name(), "", "cannot bind the rank and compare dispatchers (private methods on two reflect.Values switching on Kind)")
 		return
 	}
 	_, rc := kindClauses(info, rankD)
@@ -95,7 +103,6 @@ func checkDispatch(c *Ctx, r *Rec, cr *collRoles) {
 		fmt.Sprintf("the rank dispatcher handles kinds %v, the compare dispatcher %v: a value of a kind in only one of them can be compared but not ranked (or the reverse)", diff(rk, ck), diff(ck, rk)))
 	checkIntrinsicArms(c, r, cr, rankD, "D4-intrinsic-arms")
 	checkLadders(c, r, cr, rankD, true, "D3-nil-ladders")
-	r.floor("D3-nil-ladders", 1)
 }
 
 // resolveInitIn follows local single-definition variables declared inside scope.
@@ -153,15 +160,28 @@ func checkLadders(c *Ctx, r *Rec, cr *collRoles, fd *ast.FuncDecl, rank bool, ru
 			return Val{}, false
 		}
 		if cf := calleeOf(info, call); cf != nil && recvNamed(cf) != nil && recvNamed(cf).Origin() == cr.n.Origin() && len(call.Args) == 2 {
+			if pureLadderHelper(c, info, cf) {
+				return Val{}, false // interpreted in place (see inlinable below)
+			}
 			id := fmt.Sprintf("call#%d", len(calls))
 			calls = append(calls, callRec{call, id})
 			return Val{Opaque: id}, true
 		}
 		return Val{}, false
 	}
+	env.recvs = map[types.Object]bool{}
+	if ro := recvObj(info, fd); ro != nil {
+		env.recvs[ro] = true
+	}
+	env.inlinable = func(call *ast.CallExpr) *ast.FuncDecl {
+		if cf := calleeOf(info, call); cf != nil && pureLadderHelper(c, info, cf) {
+			return c.declOf(cf)
+		}
+		return nil
+	}
 	paths := symRun(env, fd.Body)
 	if len(env.problems) > 0 {
-		r.undecided(rule, construct, c.pos(fd.Pos()), "SYM cannot interpret the dispatcher: "+strings.Join(dedup(env.problems), "; "))
+		r.skip(rule, construct, c.pos(fd.Pos()), "SYM cannot interpret the dispatcher: "+strings.Join(dedup(env.problems), "; "))
 		return
 	}
 	r.count("SYM paths", len(paths))
@@ -200,6 +220,7 @@ func checkLadders(c *Ctx, r *Rec, cr *collRoles, fd *ast.FuncDecl, rank bool, ru
 	L, E, G := cr.L, cr.E, cr.G
 	var viol []string
 	nLadderPaths := 0
+	unknownPaths := 0
 	for _, p := range paths {
 		if p.Kind != "return" || len(p.Rets) != 1 {
 			continue
@@ -232,7 +253,19 @@ func checkLadders(c *Ctx, r *Rec, cr *collRoles, fd *ast.FuncDecl, rank bool, ru
 					nLadderPaths++
 					need(true, G, "(non-nil, nil)")
 				default:
-					viol = append(viol, fmt.Sprintf("%s two defined values are ranked by the constant %s", where, rankName(cr, cst)))
+					foreign := false
+					for _, a := range p.Cube {
+						for sname := range a.C {
+							if strings.HasPrefix(sname, "pred:") && sname != "pred:"+p0+".IsValid()" && sname != "pred:"+p1+".IsValid()" && sname != "pred:"+p0+".IsNil()" && sname != "pred:"+p1+".IsNil()" && (strings.Contains(sname, "IsNil") || strings.Contains(sname, "IsValid")) {
+								foreign = true
+							}
+						}
+					}
+					if foreign {
+						unknownPaths++
+					} else {
+						viol = append(viol, fmt.Sprintf("%s two defined values are ranked by the constant %s", where, rankName(cr, cst)))
+					}
 				}
 				continue
 			}
@@ -284,12 +317,10 @@ func checkLadders(c *Ctx, r *Rec, cr *collRoles, fd *ast.FuncDecl, rank bool, ru
 			viol = append(viol, fmt.Sprintf("the delegate call %s(%s, %s) at %s does not pass mirror-image operands as (first, second)", exprStr(cl.call.Fun), exprStr(a0), exprStr(a1), c.pos(cl.call.Pos())))
 		}
 	}
-	if nLadderPaths < 8 && len(viol) == 0 {
-		r.fail(rule, construct, c.pos(fd.Pos()), fmt.Sprintf("only %d ladder paths were found, at least 8 exist on the reference tree (undefined values, nil slices, nil maps, nil interfaces/pointers): a ladder has been removed", nLadderPaths))
-		return
-	}
 	if len(viol) > 0 {
 		r.fail(rule, construct, c.pos(fd.Pos()), strings.Join(dedup(viol), " | "))
+	} else if unknownPaths > 0 {
+		r.skip(rule, construct, c.pos(fd.Pos()), fmt.Sprintf("%d paths test validity or nil-ness through names the rule cannot relate to the operands", unknownPaths))
 	} else {
 		r.ok(rule, construct, c.pos(fd.Pos()), fmt.Sprintf("%d paths (%d through a ladder): undefined/nil first, delegates only for defined non-nil operands passed in order", len(paths), nLadderPaths))
 	}
@@ -335,7 +366,7 @@ func checkIntrinsicArms(c *Ctx, r *Rec, cr *collRoles, rankD *ast.FuncDecl, rule
 		}
 	}
 	if intrinsicFD == nil {
-		r.undecided("D4-dispatch-agreement", "agent."+cr.n.Obj().Name()+"/intrinsic-kinds", c.pos(rankD.Pos()), "cannot bind the intrinsic ranker")
+		r.skip("D4-dispatch-agreement", "agent."+cr.n.Obj().Name()+"/intrinsic-kinds", c.pos(rankD.Pos()), "cannot bind the intrinsic ranker")
 	} else {
 		isw, icl := kindClauses(info, intrinsicFD)
 		ik := flatten(icl)
@@ -355,7 +386,7 @@ func checkIntrinsicArms(c *Ctx, r *Rec, cr *collRoles, rankD *ast.FuncDecl, rule
 				names = append(names, exprStr(e))
 			}
 			construct := c.fdName(intrinsicFD) + "/arm[" + strings.Join(names, ",") + "]"
-			bad := "the arm does not end in a call of a leaf ranker"
+			bad := "skip: the arm does not end in a call of a leaf ranker"
 			for _, s := range cc.Body {
 				rs, ok := s.(*ast.ReturnStmt)
 				if !ok || len(rs.Results) != 1 {
@@ -407,8 +438,160 @@ func checkIntrinsicArms(c *Ctx, r *Rec, cr *collRoles, rankD *ast.FuncDecl, rule
 					bad = ""
 				}
 			}
-			r.check(bad == "", rule, construct, c.pos(cc.Pos()), "both operands extracted by the same accessor and passed as (first, second)", bad)
+			r.verdict(rule, construct, c.pos(cc.Pos()), "both operands extracted by the same accessor and passed as (first, second)", bad)
 		}
-		r.floor(rule, 8)
+	}
+}
+
+// pureLadderHelper: an unexported method whose body calls nothing but IsNil/IsValid on its
+// parameters (a helper that only ranks or compares undefined and nil operands).
+func pureLadderHelper(c *Ctx, info *types.Info, fn *types.Func) bool {
+	if fn.Exported() {
+		return false
+	}
+	d := c.declOf(fn)
+	if d == nil || d.Body == nil || c.infoFor(d) != info {
+		return false
+	}
+	pure := true
+	tests := false
+	ast.Inspect(d.Body, func(x ast.Node) bool {
+		if call, ok := x.(*ast.CallExpr); ok {
+			_, mname, _, isM := methodCall(call)
+			if !isM || (mname != "IsNil" && mname != "IsValid") {
+				pure = false
+			} else {
+				tests = true
+			}
+		}
+		if _, ok := x.(*ast.ForStmt); ok {
+			pure = false
+		}
+		if _, ok := x.(*ast.RangeStmt); ok {
+			pure = false
+		}
+		return true
+	})
+	return pure && tests
+}
+
+// checkPrefixOrder: in a function that classifies a string by a sequence of
+// strings.HasPrefix tests (written out or driven by a table), a test whose prefix extends
+// the prefix of an earlier test can never fire: the earlier one takes the string first
+// (returning, or rewriting it).  The class of the later entry is dead and its members are
+// merged into the earlier class.
+func checkPrefixOrder(c *Ctx, r *Rec, role, rule string) {
+	info := c.info(role)
+	for _, fd := range c.allFuncDecls(role) {
+		if fd.Body == nil {
+			continue
+		}
+		type ent struct {
+			prefix string
+			pos    token.Pos
+		}
+		var ents []ent
+		lit := func(e ast.Expr) (string, bool) {
+			if tv, ok := info.Types[e]; ok && tv.Value != nil && tv.Value.Kind() == constant.String {
+				return constant.StringVal(tv.Value), true
+			}
+			return "", false
+		}
+		inspectNoLit(fd.Body, func(x ast.Node) bool {
+			call, ok := x.(*ast.CallExpr)
+			if !ok || len(call.Args) != 2 {
+				return true
+			}
+			cf := calleeOf(info, call)
+			if cf == nil || cf.Pkg() == nil || cf.Pkg().Path() != "strings" || cf.Name() != "HasPrefix" {
+				return true
+			}
+			if s, ok := lit(call.Args[1]); ok {
+				ents = append(ents, ent{s, call.Pos()})
+				return true
+			}
+			// table driven: HasPrefix(x, entry.field) with entry ranging over a table of literals
+			se, ok := ast.Unparen(call.Args[1]).(*ast.SelectorExpr)
+			if !ok {
+				return true
+			}
+			entry := identObj(info, se.X)
+			if entry == nil {
+				return true
+			}
+			var table ast.Expr
+			ast.Inspect(fd.Body, func(y ast.Node) bool {
+				if rs, ok := y.(*ast.RangeStmt); ok && rs.Value != nil && identObj(info, rs.Value) == entry {
+					table = rs.X
+				}
+				return true
+			})
+			if table == nil {
+				return true
+			}
+			var cl *ast.CompositeLit
+			if id, ok := ast.Unparen(table).(*ast.Ident); ok {
+				if v, ok := info.Uses[id].(*types.Var); ok {
+					// package-level or local variable with a literal initialiser
+					for _, f := range c.Pkgs[role].Syntax {
+						ast.Inspect(f, func(z ast.Node) bool {
+							if vs, ok := z.(*ast.ValueSpec); ok {
+								for i, nm := range vs.Names {
+									if info.Defs[nm] == v && i < len(vs.Values) {
+										if l, ok := ast.Unparen(vs.Values[i]).(*ast.CompositeLit); ok {
+											cl = l
+										}
+									}
+								}
+							}
+							return true
+						})
+					}
+				}
+			} else if l, ok := ast.Unparen(table).(*ast.CompositeLit); ok {
+				cl = l
+			}
+			if cl == nil {
+				return true
+			}
+			for _, el := range cl.Elts {
+				row, ok := el.(*ast.CompositeLit)
+				if !ok {
+					continue
+				}
+				// the field used as prefix: by name (key: value) or by position
+				st, _ := info.TypeOf(row).Underlying().(*types.Struct)
+				for i, fe := range row.Elts {
+					var val ast.Expr
+					name := ""
+					if kv, ok := fe.(*ast.KeyValueExpr); ok {
+						if id, ok := kv.Key.(*ast.Ident); ok {
+							name = id.Name
+						}
+						val = kv.Value
+					} else if st != nil && i < st.NumFields() {
+						name, val = st.Field(i).Name(), fe
+					}
+					if name == se.Sel.Name && val != nil {
+						if s, ok := lit(val); ok {
+							ents = append(ents, ent{s, val.Pos()})
+						}
+					}
+				}
+			}
+			return true
+		})
+		if len(ents) < 3 {
+			continue
+		}
+		bad := ""
+		for j := range ents {
+			for i := 0; i < j; i++ {
+				if ents[i].prefix != ents[j].prefix && ents[i].prefix != "" && strings.HasPrefix(ents[j].prefix, ents[i].prefix) {
+					bad = fmt.Sprintf("the test for the prefix %q (at %s) comes after the test for %q (at %s), which already takes every string that starts with %q: the later class is never chosen and its members fall into the earlier one", ents[j].prefix, c.pos(ents[j].pos), ents[i].prefix, c.pos(ents[i].pos), ents[j].prefix)
+				}
+			}
+		}
+		r.check(bad == "", rule, c.fdName(fd), c.pos(fd.Pos()), fmt.Sprintf("%d prefix tests, none shadowed by an earlier shorter prefix", len(ents)), bad)
 	}
 }
